@@ -128,6 +128,45 @@ class WEnv(ScriptedEnv):
         return enc(self.kind, self.env_id, self.episode, self.step_in_ep), r, te, tr, info
 
 
+# rewards emitted by the float64 base VecEnvs: several are not representable in float32
+F64_REWARDS = [0.1, 0.4333333333333333, -0.7, 1.1, 0.0, 2.0, 1e-9, 123456.789]
+
+
+def make_f64_vecenv(fns):
+    """a DummyVecEnv-like base whose step_wait returns the sub-environments' rewards as float64, exactly as emitted
+    (like SubprocVecEnv / gym3-style vectorised environments); auto-reset + terminal_observation as in DummyVecEnv"""
+    from copy import deepcopy
+
+    from stable_baselines3.common.vec_env import DummyVecEnv
+
+    class F64DummyVecEnv(DummyVecEnv):
+        def step_wait(self):
+            rews = np.zeros((self.num_envs,), dtype=np.float64)
+            for env_idx in range(self.num_envs):
+                obs, rews[env_idx], terminated, truncated, self.buf_infos[env_idx] = self.envs[env_idx].step(
+                    self.actions[env_idx])
+                self.buf_dones[env_idx] = terminated or truncated
+                self.buf_infos[env_idx]["TimeLimit.truncated"] = truncated and not terminated
+                if self.buf_dones[env_idx]:
+                    self.buf_infos[env_idx]["terminal_observation"] = obs
+                    obs, self.reset_infos[env_idx] = self.envs[env_idx].reset()
+                self._save_obs(env_idx, obs)
+            return (self._obs_from_buf(), rews, np.copy(self.buf_dones), deepcopy(self.buf_infos))
+
+    return F64DummyVecEnv(fns)
+
+
+def base_of(case):
+    return case.get("base") or ("subproc" if case.get("subproc") else "dummy")
+
+
+def rew_code(case, r):
+    """rewards cross to the model as opaque integers (the model only passes them through / adds them up)"""
+    if base_of(case) == "dummy":
+        return int(round(r * 4))
+    return F64_REWARDS.index(r) if r in F64_REWARDS else -1
+
+
 class WEnvFn:
     def __init__(self, **kw):
         self.kw = kw
@@ -249,8 +288,12 @@ def gen_case(rng, widen=False, thorough=False, no_finding_kinds=False):
             ops.append("reset")
         ops.append("step")
     case = {"kind": kind, "n_envs": n_envs, "wrappers": ws, "scripts": scripts, "ops": ops}
-    if thorough and rng.chance(0.04):
-        case["subproc"] = True
+    base = rng.weighted([("dummy", 80), ("f64", 19), ("subproc", 4 if thorough else 1)])
+    if base != "dummy":
+        case["base"] = base
+        for sc in scripts:
+            for st in sc:
+                st[0] = rng.choice(F64_REWARDS)
     return case
 
 
@@ -283,9 +326,10 @@ def shrink_candidates(case):
         c = dict(case)
         c["ops"] = ops[:-1]
         yield c
-    if case.get("subproc"):
+    if base_of(case) == "subproc":
         c = dict(case)
-        c.pop("subproc")
+        c.pop("subproc", None)
+        c["base"] = "f64"
         yield c
     if case["n_envs"] > 1:
         c = dict(case)
@@ -494,6 +538,7 @@ def install_spy(base, n_envs):
                 "term": one_obs(copy.deepcopy(info["terminal_observation"])) if "terminal_observation" in info else None,
                 "trunc": bool(info.get("TimeLimit.truncated", False)), "payload": int(info.get("tag", -1)),
                 "episode": None, "rew_dtype": str(rews.dtype), "done_dtype": str(dones.dtype),
+                "rest": {k: copy.deepcopy(v) for k, v in info.items() if k != "terminal_observation"},
             })
         rec["step"].append(rs)
         return obs, rews, dones, infos
@@ -534,7 +579,9 @@ def run_impl(case):
     fns = [WEnvFn(env_id=i, kind=case["kind"], script=case["scripts"][i]) for i in range(n)]
     with warnings.catch_warnings():
         warnings.simplefilter("ignore")
-        base = SubprocVecEnv(fns, start_method="fork") if case.get("subproc") else DummyVecEnv(fns)
+        kind_of_base = base_of(case)
+        base = (SubprocVecEnv(fns, start_method="fork") if kind_of_base == "subproc"
+                else make_f64_vecenv(fns) if kind_of_base == "f64" else DummyVecEnv(fns))
         try:
             spy = install_spy(base, n)
             base_space = base.observation_space
@@ -562,6 +609,7 @@ def run_impl(case):
                             "obs_in": space_contains(venv.observation_space, so[i]),
                             "term_in": None if term is None else space_contains(venv.observation_space, term),
                             "rew_dtype": str(rews.dtype), "done_dtype": str(dones.dtype),
+                            "rest": {k: v for k, v in info.items() if k not in ("terminal_observation", "episode")},
                         })
                     outs.append({"op": "step", "recs": rs})
             for o in [o for os_ in spy["reset"] for o in os_] + [x for rs in spy["step"] for r in rs
@@ -584,7 +632,7 @@ def model_ops(case, impl):
             ri += 1
         else:
             ops.append({"op": "step", "recs": [
-                {"obs": obs_j(r["obs"]), "rew": int(round(r["rew"] * 4)), "done": r["done"],
+                {"obs": obs_j(r["obs"]), "rew": rew_code(case, r["rew"]), "done": r["done"],
                  "term": None if r["term"] is None else obs_j(r["term"]), "trunc": r["trunc"], "payload": r["payload"]}
                 for r in impl["spy"]["step"][si]]})
             si += 1
